@@ -113,6 +113,10 @@ def join (sep : Str) : List Str → Str
   | [x] => x
   | x :: y :: r => x ++ sep ++ join sep (y :: r)
 
+/-- `sep.join(xs)` when an item may be None (TypeError, whatever its position) -/
+def joinOpt (sep : Str) (xs : List (Option Str)) : M Str :=
+  if xs.all Option.isSome then pure (join sep (xs.filterMap id)) else throw Exc.TypeError
+
 /-- `s.startswith(p)` -/
 def startswith (s p : Str) : Bool := p.isPrefixOf s
 
